@@ -5078,6 +5078,7 @@ Ops!(
     b"rbmb"       , [0x86              ], X, LOCK;
     b"rbrb"       , [0x86              ], X;
     b"rbrb"       , [0x86              ], X, ENC_MR;
+    b"AdAd"       , [0x87, 0xC0        ], X;
     b"A*r*"       , [0x90              ], X, AUTO_SIZE | SHORT_ARG;
     b"m*r*"       , [0x87              ], X, AUTO_SIZE | ENC_MR;
     b"r*A*"       , [0x90              ], X, AUTO_SIZE | SHORT_ARG;
